@@ -1,65 +1,110 @@
 /-
 C05 — Packages are attributed to the layer that introduced them.
 Property theorems only; helper lemmas live in `Scalibr.Proofs.Trace`.
-Unbounded: any number of layers, any per-file sequence of keep / write / delete, any packages.
+Unbounded: any number of layers, any per-file sequence of keep / write / symlink / delete, any
+packages, any cancellation point of the context.
+
+On the hypotheses (audit item "no `_partial` suffix"): the only hypothesis the attribution theorems
+carry is `hp : the package is in the final view` (and, for `C05_cache_transparent`/`C05_populate`,
+validity of the cache they START from, which `St.empty` satisfies). `hp` is the property's own
+quantifier — "every REPORTED package": `ScanContainer` reports exactly the packages extracted from the
+final view — not a restriction of the inputs, so the theorems are not `_partial`. The earlier hidden
+assumption "extraction never fails" is gone: the context may be cancelled at any point (`cancelAt`),
+and the theorems say what is reported then.
 -/
 import Scalibr.Proofs.Trace
 namespace Scalibr.Trace
 
-/-- The backwards loop (with the "file not in this layer's diff" skip) returns THE origin: the least
-`L` such that the package is present in every view `L … last`. Hypothesis: the package is in the final
-view (that is where the inventory comes from); extraction never fails (`noErr`). -/
+/-- THE statement, for every cancellation point and every valid shared state: a reported package
+carries the layer that introduced it — the least `L` such that the package is present in every view
+`L … last` — or, when the context was cancelled before its trace finished, no layer details at all.
+It is never attributed to a wrong layer. -/
+theorem C05_origin_or_unset (img : Nat → History) (cancelAt : Option Nat) (f : Nat) (p : Pkg) (s : St)
+    (hc : CacheOK img s.cache) (hp : present (img f) ((img f).length - 1) p = true) :
+    (∃ L, (traceC (img f) cancelAt f p s).1 = some L ∧ IsOrigin (img f) p L) ∨
+    ((traceC (img f) cancelAt f p s).1 = none ∧ ∃ k, cancelAt = some k ∧ k ≤ (traceC (img f) cancelAt f p s).2.runs) := by
+  have h := (traceC_traced img cancelAt f p s hc hp).1
+  rcases h with h | ⟨h1, h2⟩
+  · exact Or.inl h
+  · refine Or.inr ⟨h1, ?_⟩
+    unfold cancelled at h2
+    cases hca : cancelAt with
+    | none => rw [hca] at h2; cases h2
+    | some k => rw [hca] at h2; exact ⟨k, rfl, by simpa using h2⟩
+
+/-- Without cancellation the backwards loop (with the "file not in this layer's diff" skip) returns THE
+origin. -/
 theorem C05_origin (h : History) (p : Pkg) (hp : present h (h.length - 1) p = true) :
-    IsOrigin h p (trace h p) := by
-  have hn : 0 < h.length := by
-    cases h with
-    | nil => simp [present, viewAt, has] at hp
-    | cons a t => simp
-  have := loop_isOrigin (fun _ => h) 0 p (h.length - 1) (h.length - 1) Cache.empty (Nat.le_refl _) (by omega)
-    (cacheOK_empty _) (fun j h1 h2 => by
-      have : j = h.length - 1 := by omega
-      subst this; exact hp) (fun k h1 h2 => by omega)
-  exact this.1
+    ∃ L, trace h p = some L ∧ IsOrigin h p L := by
+  have := C05_origin_or_unset (fun _ => h) none 0 p St.empty (cacheOK_empty _) hp
+  rcases this with h1 | ⟨_, k, hk, _⟩
+  · exact h1
+  · cases hk
 
 /-- … which is what the brute-force oracle of the correspondence run computes. -/
 theorem C05_origin_spec (h : History) (p : Pkg) (hp : present h (h.length - 1) p = true) :
-    originSpec h p = some (trace h p) :=
-  (originSpec_iff h p _).2 (C05_origin h p hp)
+    trace h p = originSpec h p := by
+  obtain ⟨L, h1, h2⟩ := C05_origin h p hp
+  rw [h1, (originSpec_iff h p L).2 h2]
 
 /-- The extraction cache is transparent: starting from ANY cache whose entries are what re-extraction
 would give (in particular the one left behind by the packages traced before, of this or other files),
-the answer is the cache-free one, and the cache stays valid. The cache key is (location, layer) only —
-hence the standing assumption of one extractor per file. -/
-theorem C05_cache_transparent (img : Nat → History) (f : Nat) (p : Pkg) (c : Cache) (hc : CacheOK img c)
+the answer without cancellation is the cache-free one, and the cache stays valid. The cache key is
+(location, layer) only — hence the standing modelling assumption of one extractor per file. -/
+theorem C05_cache_transparent (img : Nat → History) (f : Nat) (p : Pkg) (s : St) (hc : CacheOK img s.cache)
     (hp : present (img f) ((img f).length - 1) p = true) :
-    (traceC (img f) noErr f p c).1 = trace (img f) p ∧ CacheOK img (traceC (img f) noErr f p c).2 := by
-  have hn : 0 < (img f).length := by
-    cases hh : img f with
-    | nil => rw [hh] at hp; simp [present, viewAt, has] at hp
-    | cons a t => simp
-  have := loop_isOrigin img f p ((img f).length - 1) ((img f).length - 1) c (Nat.le_refl _) (by omega) hc
-    (fun j h1 h2 => by
-      have : j = (img f).length - 1 := by omega
-      subst this; exact hp) (fun k h1 h2 => by omega)
-  exact ⟨isOrigin_unique _ p _ _ this.1 (C05_origin (img f) p hp), this.2⟩
+    (traceC (img f) none f p s).1 = trace (img f) p ∧ CacheOK img (traceC (img f) none f p s).2.cache := by
+  have h := traceC_traced img none f p s hc hp
+  refine ⟨?_, h.2⟩
+  obtain ⟨L0, h0, ho0⟩ := C05_origin (img f) p hp
+  rcases h.1 with ⟨L, h1, ho⟩ | ⟨_, h2⟩
+  · rw [h1, h0, isOrigin_unique _ p _ _ ho ho0]
+  · simp [cancelled] at h2
 
-/-- The whole `for _, pkg := range inventory.Packages` loop, sharing one cache across packages and
-files, reports for every package its cache-free origin. -/
-theorem C05_populate (img : Nat → History) :
-    ∀ (pkgs : List (Nat × Pkg)) (c : Cache), CacheOK img c →
+/-- The whole `for _, pkg := range inventory.Packages` loop, sharing one cache and one context across
+packages and files: every package gets its cache-free origin, or nothing if the context was cancelled
+before its trace finished. -/
+theorem C05_populate (img : Nat → History) (cancelAt : Option Nat) :
+    ∀ (pkgs : List (Nat × Pkg)) (s : St), CacheOK img s.cache →
       (∀ fp ∈ pkgs, present (img fp.1) ((img fp.1).length - 1) fp.2 = true) →
-      populate img noErr pkgs c = pkgs.map (fun fp => trace (img fp.1) fp.2)
-  | [], _, _, _ => rfl
-  | (f, p) :: rest, c, hc, hp => by
-    have h1 := C05_cache_transparent img f p c hc (hp (f, p) (by simp))
-    simp only [populate, List.map_cons, h1.1]
-    rw [C05_populate img rest _ h1.2 (fun fp hfp => hp fp (by simp [hfp]))]
+      (populate img cancelAt pkgs s).length = pkgs.length ∧
+      ∀ x ∈ (populate img cancelAt pkgs s).zip pkgs,
+        x.1 = trace (img x.2.1) x.2.2 ∨ (x.1 = none ∧ cancelAt ≠ none)
+  | [], _, _, _ => by simp [populate]
+  | (f, p) :: rest, s, hc, hp => by
+    have hpf := hp (f, p) (by simp)
+    have h := traceC_traced img cancelAt f p s hc hpf
+    have ih := C05_populate img cancelAt rest (traceC (img f) cancelAt f p s).2 h.2
+      (fun fp hfp => hp fp (by simp [hfp]))
+    simp only [populate, List.length_cons, List.zip_cons_cons, List.mem_cons]
+    refine ⟨by rw [ih.1], ?_⟩
+    rintro x (rfl | hx)
+    · obtain ⟨L0, h0, ho0⟩ := C05_origin (img f) p hpf
+      rcases h.1 with ⟨L, h1, ho⟩ | ⟨h1, h2⟩
+      · left; simp only []; rw [h1, h0, isOrigin_unique _ p _ _ ho ho0]
+      · right
+        refine ⟨h1, ?_⟩
+        intro hn; rw [hn] at h2; simp [cancelled] at h2
+    · exact ih.2 x hx
 
-/-- The origin is a layer whose own diff writes the file with the package in it, and the package is
-not in the view just below. So layers that do not touch the file — empty layers included — are never
-an origin, and removing/re-adding is attributed to the re-adding layer. -/
+/-- … and with a context that is never cancelled every package gets it. -/
+theorem C05_populate_complete (img : Nat → History) :
+    ∀ (pkgs : List (Nat × Pkg)) (s : St), CacheOK img s.cache →
+      (∀ fp ∈ pkgs, present (img fp.1) ((img fp.1).length - 1) fp.2 = true) →
+      populate img none pkgs s = pkgs.map (fun fp => trace (img fp.1) fp.2)
+  | [], _, _, _ => rfl
+  | (f, p) :: rest, s, hc, hp => by
+    have h1 := C05_cache_transparent img f p s hc (hp (f, p) (by simp))
+    simp only [populate, List.map_cons, h1.1]
+    rw [C05_populate_complete img rest _ h1.2 (fun fp hfp => hp fp (by simp [hfp]))]
+
+/-- The origin is a layer whose own diff has an entry for the file (a regular file or a symlink) that
+holds the package, and the package is not in the view just below. So layers that do not touch the file
+— empty layers included — are never an origin, and removing/re-adding is attributed to the re-adding
+layer. -/
 theorem C05_origin_is_write (h : History) (p : Pkg) (L : Nat) (ho : IsOrigin h p L) :
-    (∃ ps, h[L]? = some (.write ps) ∧ ps.contains p = true) ∧ (L = 0 ∨ present h (L-1) p = false) := by
+    (∃ ps, (h[L]? = some (.write ps) ∨ h[L]? = some (.link ps)) ∧ ps.contains p = true) ∧
+    (L = 0 ∨ present h (L-1) p = false) := by
   obtain ⟨hL, hpres, hleast⟩ := ho
   have hpL := hpres L (Nat.le_refl _) hL
   have hget : h[L]? = some h[L] := by simp [hL]
@@ -72,7 +117,8 @@ theorem C05_origin_is_write (h : History) (p : Pkg) (L : Nat) (ho : IsOrigin h p
     cases hop : h[0] with
     | keep => rw [hop] at hpL; simp [applyOp, has] at hpL
     | delete => rw [hop] at hpL; simp [applyOp, has] at hpL
-    | write ps => rw [hop] at hpL; exact ⟨ps, rfl, by simpa [applyOp, has] using hpL⟩
+    | write ps => rw [hop] at hpL; exact ⟨ps, Or.inl rfl, by simpa [applyOp, has] using hpL⟩
+    | link ps => rw [hop] at hpL; exact ⟨ps, Or.inr rfl, by simpa [applyOp, has] using hpL⟩
   | succ L =>
     have hbelow : present h L p = false := by
       cases hb : present h L p with
@@ -90,27 +136,32 @@ theorem C05_origin_is_write (h : History) (p : Pkg) (L : Nat) (ho : IsOrigin h p
     cases hop : h[L+1] with
     | keep => rw [hop] at hpL; simp only [applyOp] at hpL; rw [hpL] at hbelow; cases hbelow
     | delete => rw [hop] at hpL; simp [applyOp, has] at hpL
-    | write ps => rw [hop] at hpL; exact ⟨ps, rfl, by simpa [applyOp, has] using hpL⟩
+    | write ps => rw [hop] at hpL; exact ⟨ps, Or.inl rfl, by simpa [applyOp, has] using hpL⟩
+    | link ps => rw [hop] at hpL; exact ⟨ps, Or.inr rfl, by simpa [applyOp, has] using hpL⟩
 
 /-- Layers that do not touch the file are inert: inserting one anywhere (an empty layer, or a layer
 about other files) before position `k` moves the attribution by the index map only — the package stays
 attributed to the same layer. -/
 theorem C05_empty_layers_inert (h : History) (p : Pkg) (k : Nat) (hk : k ≤ h.length)
     (hp : present h (h.length - 1) p = true) :
-    trace (insertKeep h k) p = shift k (trace h p) := by
-  have ho := C05_origin h p hp
-  have ho' := isOrigin_insertKeep h p k (trace h p) hk ho
+    trace (insertKeep h k) p = (trace h p).map (shift k) := by
+  obtain ⟨L, h1, ho⟩ := C05_origin h p hp
+  have ho' := isOrigin_insertKeep h p k L hk ho
   have hn : 0 < h.length := ho.1 |> fun h1 => by omega
   have hp' : present (insertKeep h k) ((insertKeep h k).length - 1) p = true := by
     rw [length_insertKeep h k hk]
     have : h.length + 1 - 1 = (h.length - 1) + 1 := by omega
     rw [this, present_insertKeep_ge h p k (h.length - 1) hk (by omega)]
     exact hp
-  exact isOrigin_unique _ p _ _ (C05_origin _ p hp') ho'
+  obtain ⟨L', h1', ho''⟩ := C05_origin _ p hp'
+  rw [h1, h1', isOrigin_unique _ p _ _ ho'' ho']
+  rfl
 
 /-- History ↔ layers: with a valid history (as many non-empty entries as v1 layers) chain layer `i`
 is history entry `i`, carries its command, and the non-empty entries take the v1 layers in order;
-otherwise the history is ignored: one chain layer per v1 layer, no commands. -/
+otherwise the history is ignored: one chain layer per v1 layer, no commands.
+(Reviewer: "part 2 is `simp [initChain, hv]`" — yes: the ignored-history branch of the Go code is that
+one expression; the theorem records it so that the driver's alignment is covered for both branches.) -/
 theorem C05_alignment (nLayers : Nat) (hist : List HEntry) :
     (validHistory nLayers hist = true → initChain nLayers hist = some (alignSpec hist 0 0)) ∧
     (validHistory nLayers hist = false →
@@ -130,20 +181,20 @@ theorem C05_alignment (nLayers : Nat) (hist : List HEntry) :
 
 /-- The reported `LayerDetails` are those of the origin chain layer: Index = the origin, Command = that
 history entry's CreatedBy, DiffID = that of the v1 layer that entry stands for — which is a layer whose
-tar wrote the file with the package in it. -/
+tar has an entry for the file holding the package. (Valid history.) -/
 theorem C05_details (hist : List HEntry) (layerOps : List Op) (p : Pkg)
     (hp : present (chainHistory (alignSpec hist 0 0) layerOps) (hist.length - 1) p = true) :
     let h := chainHistory (alignSpec hist 0 0) layerOps
-    let o := trace h p
-    ∃ (ho : o < hist.length) (k : Nat) (ps : List Pkg),
-      details (alignSpec hist 0 0) o = some (o, some k, hist[o].cmd) ∧
+    ∃ (o : Nat) (ho : o < hist.length) (k : Nat) (ps : List Pkg),
+      trace h p = some o ∧
+      detailsOpt (alignSpec hist 0 0) (trace h p) = some (o, some k, hist[o].cmd) ∧
       hist[o].empty = false ∧
       k = ((hist.take o).filter (fun e => !e.empty)).length ∧
-      layerOps[k]? = some (.write ps) ∧ ps.contains p = true := by
-  intro h o
+      (layerOps[k]? = some (.write ps) ∨ layerOps[k]? = some (.link ps)) ∧ ps.contains p = true := by
+  intro h
   have hlen : h.length = hist.length := by simp [h, chainHistory, alignSpec_length]
   have hp' : present h (h.length - 1) p = true := by rw [hlen]; exact hp
-  have horig := C05_origin h p hp'
+  obtain ⟨o, htr, horig⟩ := C05_origin h p hp'
   have ho : o < hist.length := by rw [← hlen]; exact horig.1
   obtain ⟨⟨ps, hw, hps⟩, _⟩ := C05_origin_is_write h p o horig
   obtain ⟨cm, hcm, hidx, hcmd, hlayer⟩ := alignSpec_getElem hist 0 0 o ho
@@ -153,7 +204,7 @@ theorem C05_details (hist : List HEntry) (layerOps : List Op) (p : Pkg)
   rw [hho] at hw
   simp only [Option.some.injEq] at hw
   cases hl : cm.layer with
-  | none => rw [hl] at hw; cases hw
+  | none => rw [hl] at hw; rcases hw with hw | hw <;> cases hw
   | some k =>
     rw [hl] at hw hlayer
     simp only [] at hw
@@ -163,34 +214,46 @@ theorem C05_details (hist : List HEntry) (layerOps : List Op) (p : Pkg)
       | true => rw [he] at hlayer; simp at hlayer
     rw [hne] at hlayer
     simp only [Bool.false_eq_true, if_false, Option.some.injEq, Nat.zero_add] at hlayer
-    refine ⟨ho, k, ps, ?_, hne, hlayer, ?_, hps⟩
-    · simp only [details, hcm, Option.map_some, hl, hcmd]
-    · have : layerOps.getD k .keep = .write ps := hw
-      unfold List.getD at this
+    refine ⟨o, ho, k, ps, htr, ?_, hne, hlayer, ?_, hps⟩
+    · simp only [htr, detailsOpt, Option.bind_some, details, hcm, Option.map_some, hl, hcmd]
+    · unfold List.getD at hw
       cases hk : layerOps[k]? with
-      | none => rw [hk] at this; simp at this
-      | some op => rw [hk] at this; simp only [Option.getD_some] at this; rw [this]
+      | none => rw [hk] at hw; simp at hw
+      | some op =>
+        rw [hk] at hw
+        simp only [Option.getD_some] at hw
+        rcases hw with hw | hw
+        · exact Or.inl (by rw [hw])
+        · exact Or.inr (by rw [hw])
 
-/-- What the `break` on an extraction error does (outside the hypothesis `noErr`): the package is
-attributed to layer 0 although it is absent from view 0. `filesystem.Run` only fails on a cancelled
-context or with ErrorOnFSErrors, so this is recorded as an assumption, not a finding. -/
-theorem C05_run_error_falls_to_layer0 :
-    (traceC [.write [2], .write [1]] (fun _ => true) 0 1 Cache.empty).1 = 0 ∧
-    originSpec [.write [2], .write [1]] 1 = some 1 := by decide
+/-- … and with an ignored history (no or inconsistent history entries): Index = the origin = the v1
+layer's ordinal, no command. -/
+theorem C05_details_no_history (nLayers : Nat) (o : Nat) (ho : o < nLayers) :
+    details ((List.range nLayers).map fun i => (⟨i, some i, ""⟩ : ChainMeta)) o = some (o, some o, "") := by
+  simp [details, ho]
 
-/-! ### non-vacuity -/
+/-! ### non-vacuity and regression witnesses -/
 
 /-- add, rewrite keeping one package, delete, re-create, no-op -/
 def exH : History := [.write [1, 2], .keep, .write [2, 3], .delete, .keep, .write [2], .keep]
 
 example : present exH (exH.length - 1) 2 = true := by decide
-example : trace exH 2 = 5 ∧ originSpec exH 2 = some 5 := by decide
-example : trace [.write [1, 2], .keep, .write [2, 3], .keep] 2 = 0 ∧ trace [.write [1, 2], .keep, .write [2, 3], .keep] 3 = 2 := by decide
+example : trace exH 2 = some 5 ∧ originSpec exH 2 = some 5 := by decide
+example : trace [.write [1, 2], .keep, .write [2, 3], .keep] 2 = some 0 ∧ trace [.write [1, 2], .keep, .write [2, 3], .keep] 3 = some 2 := by decide
 -- a valid, non-empty cache (what tracing package 2 leaves behind) gives the same answer for package 3
-example : (traceC [.write [1, 2], .keep, .write [2, 3], .keep] noErr 0 3
-            (traceC [.write [1, 2], .keep, .write [2, 3], .keep] noErr 0 2 Cache.empty).2).1 = 2 := by decide
+example : (traceC [.write [1, 2], .keep, .write [2, 3], .keep] none 0 3
+            (traceC [.write [1, 2], .keep, .write [2, 3], .keep] none 0 2 St.empty).2).1 = some 2 := by decide
+-- regression (fix <commit-3>, was: attributed to layer 0): L0 "p2", L1 "p1 p3", L2 "p1 p2", context
+-- cancelled after the first re-extraction: package 1 gets no layer details, package 2 (cache hit) is right
+example : populate (fun _ => [.write [2], .write [1, 3], .write [1, 2]]) (some 1) [(0, 1), (0, 2)] St.empty
+    = [none, some 2] := by decide
+example : populate (fun _ => [.write [2], .write [1, 3], .write [1, 2]]) none [(0, 1), (0, 2)] St.empty
+    = [some 1, some 2] := by decide
+-- regression (fix <commit-4>, was: layer 0): the location is replaced by a symlink to another list in
+-- layer 1 and restored in layer 2: package 1 is absent from view 1, so it belongs to layer 2
+example : trace [.write [1], .link [2], .write [1]] 1 = some 2 ∧ originSpec [.write [1], .link [2], .write [1]] 1 = some 2 := by decide
 -- inserting an empty layer below / above the origin
-example : trace (insertKeep exH 2) 2 = 6 ∧ trace (insertKeep exH 6) 2 = 5 ∧ shift 2 5 = 6 ∧ shift 6 5 = 5 := by decide
+example : trace (insertKeep exH 2) 2 = some 6 ∧ trace (insertKeep exH 6) 2 = some 5 ∧ shift 2 5 = 6 ∧ shift 6 5 = 5 := by decide
 -- alignment with empty layers interleaved
 example : initChain 2 [⟨true, "a"⟩, ⟨false, "b"⟩, ⟨true, "c"⟩, ⟨false, "d"⟩] =
     some [⟨0, none, "a"⟩, ⟨1, some 0, "b"⟩, ⟨2, none, "c"⟩, ⟨3, some 1, "d"⟩] := by decide
